@@ -11,7 +11,7 @@ from mcx.engine import Layer, run_check
 from py_stringmatching.similarity_measure.jaccard import Jaccard
 from py_stringmatching.tokenizer.qgram_tokenizer import QgramTokenizer
 
-from checks.configx import config_layer, filter_config_layer
+from checks.configx import config_layer, filter_config_layer, matcher_config_layer
 from checks.filters import make_filter
 
 MAXV = 6
@@ -251,7 +251,7 @@ def layers(tier):
                   'the %d pairs of tables with <= 2 rows under two further presentations (NaN as missing marker, '
                   'duplicate and string index labels, negative / string keys, extra columns, reversed column order, '
                   'pandas str columns), whatever VERIF_SEED is' % len(small), min_nontrivial=100, chunksize=1),
-            config_layer(['C08'], quick), filter_config_layer(['C08'], quick)]
+            config_layer(['C08'], quick), filter_config_layer(['C08'], quick), matcher_config_layer(['C08'], quick)]
 
 
 ASSUME = ['None and NaN are both used as missing markers (chosen by the presentation / VERIF_SEED)']
